@@ -33,28 +33,28 @@ CLAIMED = {
    note="Assumed: package time modelled as abstract instants; strings as an uninterpreted ordered sort; container Equals and the conversion builtins not covered yet.",
    ref="DESIGN.md §4 C10"),
  "C11": dict(
-   text="VM side: step contracts proving that Get/Set/Define of the global, local and free-variable families read and write one abstract cell (through the *ObjectPtr box when present, preserving box identity), for all machine states.",
-   note="The compiler's choice of family per scope and the program-transformation equivalences are not decided.",
+   text="VM side: step contracts proving that Get/Set/Define and selector assignment of the global, local and free-variable families read and write one abstract cell (through the *ObjectPtr box when present, preserving box identity), for all machine states; the selector-assignment opcodes hand indexAssign the cell's current value and the value below the selectors. Compiler side: a closure captures each free symbol with the opcode of its scope, and a local that is captured before its first assignment is first reset by NULL; DEFL (postconditions on the emitted bytes of Compile's closure loop).",
+   note="The compiler's choice of family per scope for ordinary identifiers and the program-transformation equivalences are not decided.",
    ref="DESIGN.md §4 C11"),
  "C14": dict(
-   text="Error identity: step contracts proving that every error exit of the dispatch loop stores exactly the error a callee returned (BinaryOp, IndexGet, native Call) unless it is one of the sentinels it rewrites, and that ErrObjectAllocLimit / ErrStackOverflow are set only in their situations.",
-   note="Source positions (SourcePos, Run's trace loop, statement attribution) not covered yet.",
+   text="Error identity: step contracts proving that every error exit of the dispatch loop stores exactly the error a callee returned (BinaryOp, IndexGet, native Call) unless it is one of the sentinels it rewrites, that the engine raises ErrObjectAllocLimit / ErrStackOverflow only in their situations, that a continuing iteration never carries an error; (*VM).Run is proved to return an error whose unwrap chain contains that error (fmt.Errorf's %w modelled from the format literal, loop invariant over the trace loop).",
+   note="Source positions (SourcePos arithmetic, source-map rebasing in optimizeFunc, statement attribution) are not covered. Run requires v.err == nil on entry: Run does not reset the field, so a VM that failed once must not be re-run (observation, outside the listed properties).",
    ref="DESIGN.md §4 C14"),
  "C16": dict(
-   text="Step contracts on the OpCall arm: a call that keeps the frame count and restarts at ip -1 happens only when the next instruction is RET (or POP; RET), keeps curFrame and the instruction stream, and a non-tail call pushes exactly one frame with the saved ip inside the call instruction.",
-   note="Simultaneous parameter update and agreement with the equivalent loop are not covered yet.",
+   text="Step contracts on the OpCall arm: a call that keeps the frame count and restarts at ip -1 happens only when the next instruction is RET (or POP; RET), keeps curFrame and the instruction stream, moves the arguments into the parameter slots as a simultaneous update (loop invariant on the copy loop, for non-overlapping ranges) and never reports a stack overflow; a non-tail call pushes exactly one frame with the saved ip inside the call instruction.",
+   note="Agreement with the equivalent loop, captured-parameter boxes across iterations and the compiler's emission of RET after calls are not covered.",
    ref="DESIGN.md §4 C16"),
  "C12": dict(
-   text="De-duplication only: loop invariants on the real (*Bytecode).RemoveDuplicates prove, for all constant pools, that every old index is mapped to a valid new index, that the mapped constant has the same dynamic type, and that every per-type table (functions, ints, strings, floats, chars, module maps) points at a constant of that kind with that payload.",
-   note="updateConstIndexes (instruction rewriting) has an assumed frame; gob encode/decode fidelity (external library) is not decided; fixDecodedObject not covered yet.",
+   text="De-duplication only: loop invariants on the real (*Bytecode).RemoveDuplicates prove, for all constant pools, that every old index is mapped to a valid new index whose constant has the same payload - the same object for functions and un-named maps, the same non-empty module name for module maps, the same value for ints, strings and chars - and that every per-type table points at a constant of that kind with that key.",
+   note="updateConstIndexes (instruction rewriting) has an assumed frame; inferModuleName is abstracted as a pure function of the map (its frame is proved); float payloads are compared by kind only; gob encode/decode fidelity (external library) and fixDecodedObject are not decided.",
    ref="DESIGN.md §4 C12"),
  "C13": dict(
-   text="Per-function clauses on the real compiler: an export statement in a module compiler always emits IMMUT; RET 1 (postcondition of Compile on the emitted bytes), a forked module compiler is a fresh compiler with the given symbol table, the same module getter and file-import setting, and symbol-table Fork/Parent link tables as specified; fields that link compilers and tables are proved write-once.",
-   note="compileModule (runs the parser, uses recover) and the loop statements have assumed contracts; import-graph termination and cycle exactness are not decided.",
+   text="Per-function clauses on the real compiler: an export statement in a module compiler always emits IMMUT; RET 1, a forked module compiler is a fresh compiler with the given symbol table, the same module getter and file-import setting, symbol-table Fork/Parent link tables as specified, fields that link compilers and tables are write-once; the compiled-module cache is written in this compiler and handed to the parent compiler's store, and a lookup is answered by the parent when there is one (so store and lookup meet at the outermost compiler).",
+   note="The induction along the parent chain is a meta-argument over the per-call clauses (call records are ghost state). compileModule (runs the parser, uses recover) and the loop statements have assumed contracts; import-graph termination and cycle exactness are not decided.",
    ref="DESIGN.md §4 C13"),
  "C15": dict(
-   text="Data structure against an abstract view, proved per API function on the real code: FromInterface / ToInterface against the docs/interoperability.md table for every scalar, bytes, time and []Object; Compiled.Set/Get/IsDefined read and write exactly globals[globalIndexes[name]] (undeclared names rejected / read as undefined, every other global unchanged); Script.Add/Remove update exactly one entry of the variable table; the typed accessors of Variable equal the conversion contracts.",
-   note="The induction over API call sequences is a meta-argument over these per-call contracts; Script.Compile / Run / Clone / GetAll and nested map / slice conversion clauses are not covered; mutex operations are no-ops in the model.",
+   text="Data structure against an abstract view, proved per API function on the real code: FromInterface / ToInterface against the docs/interoperability.md table for every scalar, bytes, time and []Object; Compiled.Set/Get/IsDefined/GetAll read and write exactly globals[globalIndexes[name]] (undeclared names rejected / read as undefined, an unset slot reads as undefined and never as Go nil, every other global unchanged); Script.Add/Remove update exactly one entry of the variable table; the typed accessors of Variable equal the conversion contracts; Copy of every container (what Clone relies on) shares no mutable storage with the original.",
+   note="The induction over API call sequences is a meta-argument over these per-call contracts; Script.Compile / Run / Clone themselves and nested map / slice conversion clauses are not covered; mutex operations are no-ops in the model.",
    ref="DESIGN.md §4 C15"),
  "C20": dict(
    text="Precedence clause only: token.Token.Precedence is proved equal, for every token value, to the table in docs/tutorial.md (spec/30_syntax.smt2), with the five-level structure as a lemma.",
@@ -64,6 +64,10 @@ CLAIMED = {
    text="Adapter family only: each of the 44 adapter closures of stdlib/func_typedefs.go is proved, for all argument lists, to reject a wrong argument count with ErrWrongNumArguments, to report the first non-convertible argument with its ordinal name, and otherwise to return exactly wrap(fn(arguments in order)) where the wrapped Go function fn is an uninterpreted pure function (so a transposed argument or a swapped coercion cannot satisfy the clause); string results honour MaxStringLen.",
    note="Module tables (which Go function each name is bound to), hand-written wrappers (text.replace, pad, join, regexp, times), enum and the behaviour of the Go functions themselves are not covered; arguments of the natural type only (coercions through ToString/ToInt/... are covered by the C10 conversion contracts).",
    ref="DESIGN.md §4 C19"),
+ "C04": dict(
+   text="Scanner only: every function of parser/scanner.go (NewScanner, Scan, next, peek, error, skipWhitespace, scanIdentifier, scanDigits, scanNumber, scanEscape, scanRune, scanString, scanRawString, scanComment, findLineEnd, StripCR, switch2/3/4) is proved free of index, slice, nil and explicit-panic failures for all sources under one representation invariant (the current character occupies src[offset:readOffset], the file's extent equals the source), and Scan is proved to make progress: at a character, a call moves the offset forward or clears the pending-semicolon flag without moving back - the measure that bounds the parser's loops.",
+   note="Parser and compiler totality (no panic for arbitrary token streams / syntax trees, error-count bailout, recursion depth) are not covered: Compile's safety obligations need a syntax-tree well-formedness invariant that is not written yet. Termination of the scanner's inner loops follows from next()'s progress clause by a meta-argument, not by a checked decreases clause. SourceFile.Position/AddLine and the error handler callback are frame-only (unverified bodies).",
+   ref="DESIGN.md §4 C04"),
 }
 for v in CLAIMED.values():
     v["technique"] = TECH
